@@ -212,6 +212,11 @@ class GenAudit:
                 return (v["sym"], v["id"], v["bt"], v["w"], v["tr"], v["atom"], v["node"])
 
             if [core(v) for v in po] != [core(v) for v in pre_other]:
+                # (C04: the fragment's remaining descriptors no longer sit on the atoms they were written on, so its next bond
+                # joins an atom that never carried a descriptor; C05: the fragment is no longer an unmodified copy of its token)
+                self.viol("C04", "attached_fragment_modified",
+                          f"attach_other moved the remaining descriptors of the fragment of {tok.name} that was attached: they sat on atoms "
+                          f"{[v['atom'] for v in pre_other]} and now claim atoms {[v['atom'] for v in po]}", ev)
                 self.viol("C05", "attached_fragment_modified",
                           f"attach_other changed the fragment of {tok.name} that was attached: its descriptors were "
                           f"{[(v['sym'], v['atom'], v['node'], v['w']) for v in pre_other]} and are now {[(v['sym'], v['atom'], v['node'], v['w']) for v in po]}", ev)
